@@ -209,7 +209,7 @@ def assign_case(draw):
                               nchan_max=8))
     steps = []
     for _ in range(draw(st.integers(1, 5))):
-        kind = draw(st.sampled_from(["look", "look", "set_cf", "set_align", "set_bw", "slice", "shift_cf_channels"]))
+        kind = draw(st.sampled_from(["look", "look", "set_cf", "set_align", "set_bw", "slice", "shift_cf_channels", "refused"]))
         if kind == "set_cf":
             steps.append([kind, draw(G.freq_q(3, 10.5, units=("Hz", "kHz", "MHz", "GHz")))])
         elif kind == "set_bw":
@@ -218,6 +218,8 @@ def assign_case(draw):
             steps.append([kind, draw(st.sampled_from(["bottom", "center", "top"]))])
         elif kind == "shift_cf_channels":
             steps.append([kind, draw(st.integers(-3, 3))])
+        elif kind == "refused":
+            steps.append([kind, draw(st.integers(0, 10**6))])
         else:
             steps.append([kind])
     return {"sig": spec, "steps": steps}
@@ -258,6 +260,8 @@ def run_assign(case, stt):
                 spec["align"] = step[1]
             elif kind == "slice":
                 _ = z[:, : max(1, nchan // 2)]
+            elif kind == "refused":
+                G.bad_assign(z, step[1])  # an invalid value is refused and leaves the labels as they were
         if kind.startswith("set") or kind == "shift_cf_channels":
             changed_after_look |= looked
         looked = True
